@@ -1,2 +1,41 @@
-(* PropsC16.v — C16: a per-field merge policy applies to exactly the named subtree. *)
-From Ucfg Require Import Base ParseInt Consts Field Tree PathOps Merge OTree.
+(* PropsC16.v — C16: a per-field merge policy applies to exactly the named subtree.
+   Statements only; proofs are in ProofsPolicy.v.
+
+   PARTIAL: proved for all trees is that wherever no field-policy tree is in force the merge
+   IS the global-policy merge (which C01 ties to the plain-tree specification); which options
+   are in force at and below a named field is shown on instances evaluated by the model
+   (the named policy at the field, nothing of the tree below it, the tree dropped at every
+   other name - hence, by the theorem, the global policy there), not yet for all field paths,
+   indices and wildcards.  The correspondence run compares merge_full with the implementation
+   on random trees, paths and policy combinations, and checks the property itself against the
+   plain-tree specification spec_merge_at.  F31 is the known deviation at list levels. *)
+From Ucfg Require Import Base ParseInt Consts Field Tree PathOps Merge ProofsPolicy.
+
+Theorem c16_no_tree_is_global_policy_partial : forall v o old,
+  m_ft o = None -> merge_full o old v = merge_plain o old v.
+Proof. exact merge_full_no_tree. Qed.
+Print Assumptions c16_no_tree_is_global_policy_partial.
+
+Theorem c16_named_field_instances_partial :
+  field_opts_override {| m_h := hDefault; m_ft := Some (policy_tree "paths" hAppend) |} "paths" (-1)
+  = Ok {| m_h := hAppend; m_ft := Some (policy_leaf hAppend) |}
+  /\ field_opts_override {| m_h := hDefault; m_ft := Some (policy_tree "paths" hAppend) |} "other" (-1)
+     = Ok {| m_h := hDefault; m_ft := None |}
+  /\ field_opts_override {| m_h := hAppend; m_ft := Some (policy_leaf hAppend) |} "child" (-1)
+     = Ok {| m_h := hAppend; m_ft := None |}
+  /\ field_opts_override {| m_h := hAppend; m_ft := Some (policy_leaf hAppend) |} "*" (-1)
+     = Ok {| m_h := hAppend; m_ft := Some (policy_leaf hAppend) |}.
+Proof. exact policy_examples. Qed.
+Print Assumptions c16_named_field_instances_partial.
+
+(* the same last name component at another depth is unaffected *)
+Theorem c16_same_name_other_depth_instance_partial :
+  let o := {| m_h := hDefault; m_ft := Some (policy_tree "paths" hAppend) |} in
+  let l x := VSub [] (Some [("0", VUint x)]) in
+  merge_full o
+    (Some (VSub [("a", ("a", VSub [("paths", ("paths", l 1))] None)); ("paths", ("paths", l 1))] None))
+    (VSub [("a", ("a", VSub [("paths", ("paths", l 2))] None)); ("paths", ("paths", l 2))] None)
+  = Ok (VSub [("a", ("a", VSub [("paths", ("paths", l 2))] None));
+              ("paths", ("paths", VSub [] (Some [("0", VUint 1); ("1", VUint 2)])))] None).
+Proof. exact policy_depth_example. Qed.
+Print Assumptions c16_same_name_other_depth_instance_partial.
